@@ -54,10 +54,14 @@ def phase1(flt):
             return m, 'survives-tests'
         finally:
             shutil.rmtree(d, ignore_errors=True)
-    ms = mutants(flt)
+    have = set()
+    if os.path.exists(f'{OUT}/phase1.tsv'):
+        for l in open(f'{OUT}/phase1.tsv'):
+            q = l.split('\t'); have.add((q[0], int(q[1])))
+    ms = [m for m in mutants(flt) if (m[0], m[1]) not in have]
     with ThreadPoolExecutor(8) as ex:
         res = list(ex.map(one, ms))
-    with open(f'{OUT}/phase1.tsv', 'w') as w:
+    with open(f'{OUT}/phase1.tsv', 'a') as w:
         for (f, mid, fn, line, desc), st in res:
             w.write(f'{f}\t{mid}\t{fn}\t{line}\t{desc}\t{st}\n')
     from collections import Counter
@@ -75,6 +79,9 @@ def contract_props():
             cur = None
     return props
 
+# properties whose lemmas use the function without being named in its contract block
+EXTRA = {'FloatAsSigned': {'C09'}, 'FloatAsUnsigned': {'C09'}}
+
 def phase2(flt):
     cp = contract_props()
     done = set()
@@ -85,7 +92,7 @@ def phase2(flt):
         f, mid, fn, line, desc, st = l.rstrip('\n').split('\t'); mid = int(mid)
         if st != 'survives-tests' or (f, mid) in done or (flt and not re.search(flt, f + ':' + fn)):
             continue
-        props = sorted(cp.get(fn, set())) or ['C18', 'C19']
+        props = sorted(cp.get(fn, set()) | EXTRA.get(fn, set())) or ['C18', 'C19']
         d = scratch(f, mid)
         alarms, confirmed = [], []
         try:
@@ -115,6 +122,16 @@ def report():
         w.write('| file | id | function | line | mutation | checks run | alarms | confirmed on real code |\n|---|---|---|---|---|---|---|---|\n')
         for r in rows:
             w.write('| ' + ' | '.join(r[:6] + [r[6] or '**none**', r[7]]) + ' |\n')
+        cls = {}
+        if os.path.exists(f'{OUT}/classification.tsv'):
+            for l in open(f'{OUT}/classification.tsv'):
+                q = l.rstrip('\n').split('\t')
+                if len(q) == 4: cls[(q[0], q[1])] = (q[2], q[3])
+        w.write('\n## Mutants no check noticed (hand classification)\n\n| file | id | function | line | mutation | class | why |\n|---|---|---|---|---|---|---|\n')
+        for r in rows:
+            if not r[6]:
+                c = cls.get((r[0], r[1]), ('UNCLASSIFIED', ''))
+                w.write('| ' + ' | '.join(r[:5] + [c[0], c[1]]) + ' |\n')
     print('written')
 
 if __name__ == '__main__':
